@@ -107,9 +107,30 @@ def run(names, props, tier, seeds) -> int:
     return 0
 
 
+def report() -> int:
+    lines = ["# Seeded breakages written by independent sub-agents\n",
+             "Each agent saw only the text of one property and worked in its own scratch worktree. A change is kept only after "
+             "`selftest/seeded.py confirm` showed: the demonstration passes on the unchanged code, fails with the patch, and tawazi's "
+             "own suite still passes with the patch. `checks` are the registered quick commands run with the patch applied to /repo "
+             "(git apply … ; git checkout -- . afterwards).\n",
+             "| id | tawazi suite with patch | demo without / with patch | check results (exit 1 = caught) |", "|---|---|---|---|"]
+    for name in sorted(os.listdir(SEEDED)):
+        mp = os.path.join(SEEDED, name, "meta.json")
+        if not os.path.exists(mp):
+            continue
+        m = json.load(open(mp))
+        c = m["confirmed"]
+        chk = "; ".join(f"{k}: exit {v['exit']} — {v['first_violation'][:110]}" for k, v in sorted(m["checks"].items()))
+        lines.append(f"| {name} | {c['suite_with_patch'].split(',')[0]} | {c['demo_without_patch_exit']} / {c['demo_with_patch_exit']} | {chk} |")
+    notes = os.path.join(SEEDED, "NOTES.md")
+    extra = open(notes).read() if os.path.exists(notes) else ""
+    open(os.path.join(SEEDED, "RESULTS.md"), "w").write("\n".join(lines) + "\n\n" + extra)
+    return 0
+
+
 def main() -> int:
     ap = argparse.ArgumentParser()
-    ap.add_argument("cmd", choices=["confirm", "run"])
+    ap.add_argument("cmd", choices=["confirm", "run", "report"])
     ap.add_argument("args", nargs="*")
     ap.add_argument("--props")
     ap.add_argument("--tier", default="quick")
@@ -117,6 +138,8 @@ def main() -> int:
     a = ap.parse_args()
     if a.cmd == "confirm":
         return confirm(*a.args)
+    if a.cmd == "report":
+        return report()
     return run(a.args, a.props.split(",") if a.props else None, a.tier, a.seeds)
 
 
